@@ -714,5 +714,11 @@ def run(chk, fb, tier):
     rule_loop_emits(chk, fb)
     rule_skip_test(chk, fb)
     rule_intent_flags(chk, fb)
+    import symmetry
+
+    symmetry.rule_empty_flag_attrs(chk, fb, "C05.i")
+    symmetry.rule_accessor_keeps_state(chk, fb, "C05.l")
+    symmetry.rule_attr_guards(chk, fb, "C05.j")
+    symmetry.rule_empty_covers_children(chk, fb, "C05.k")
     chk.assume("MD5 digests of different key strings differ (collision-free for the purpose of interning)")
     chk.note("C05.e (reader/writer symmetry of the style structs) is decided by the symmetry engine under C04.b; not decided: equality of reloaded styles (value-level)")
